@@ -698,6 +698,10 @@ func (g *gen) stmt(budget int) {
 			g.slicePeek()
 			break
 		}
+		if g.impure && !g.coro && !g.inIter && len(g.byteArrays()) > 0 && g.chance(25, "elemdisturb") {
+			g.elementFactDisturb()
+			break
+		}
 		g.guardedIndex()
 	case kind == 25 && len(g.consts) > 0:
 		g.constOpStmt()
@@ -1068,6 +1072,40 @@ func (g *gen) byteArrays() []array {
 		}
 	}
 	return out
+}
+
+// elementFactDisturb stores a value into an element of a byte array (the checker records the fact), then overwrites
+// the array by a route other than an element store - copy_from_slice on a slice of it, a write through an io_writer
+// bound to it, an impure helper - and continues: no fact about the element may survive (fixed findings K2d-K2g).
+func (g *gen) elementFactDisturb() {
+	bytes := g.byteArrays()
+	ar := bytes[g.draw(0, len(bytes)-1, "edarr")]
+	c := g.draw(0, ar.n-1, "edc")
+	e, _ := g.expr(8, typeMax(8), 1)
+	g.line("%s[%d] = %s", ar.name, c, e)
+	switch g.draw(0, 2, "edkind") {
+	case 0:
+		src := bytes[g.draw(0, len(bytes)-1, "edsrc")]
+		lo := g.draw(0, src.n, "edlo")
+		g.line("%s[..].copy_from_slice!(s: %s[%d ..])", ar.name, src.name, lo)
+	case 1:
+		e2, _ := g.expr(8, typeMax(8), 1)
+		g.line("io_bind (io: w, data: %s[..], history_position: 0) {", ar.name)
+		g.line("    if w.length() >= %d {", c+1)
+		for i := 0; i <= c; i++ {
+			g.line("        w.write_u8_fast!(a: %s)", e2)
+		}
+		g.line("    }")
+		g.line("}")
+	default:
+		if len(g.helps) == 0 {
+			g.line("%s[..].copy_from_slice!(s: %s[1 ..])", ar.name, ar.name)
+			break
+		}
+		a, _ := g.expr(32, typeMax(32), 1)
+		g.line("this.%s!(a: %s)", g.helps[g.draw(0, len(g.helps)-1, "edh")], a)
+	}
+	g.stmt(0)
 }
 
 // slicePeek applies the slice methods peek_uNN / poke_uNN (lowered to unchecked C) to a sub-slice expression of a
@@ -1745,6 +1783,7 @@ func (g *gen) startFunc(impure, coro bool, args []variable) {
 		g.line("var r : base.io_reader")
 	}
 	if impure && !coro { // the parser rejects iterate inside coroutines
+		g.line("var w : base.io_writer")
 		g.line("var s0 : slice base.u8")
 		g.line("var s1 : slice base.u8")
 	}
